@@ -18,16 +18,24 @@ Node sets print sorted, the empty set as `empty` (a bare `-` would read as "unco
 `rebuild -` answers `order-sensitive` when some column's rebuilt zone map depends on the
 iteration order (the implementation's order is random, so such a line cannot be compared).
 
-Deviation signatures (model ≠ spec): `zm-prune-{null,nan,inf,eps,rounding}`,
-`zm-prune-range-{nan,rounding,other}`, `zm-plan-pruned-{null,nan,inf,eps,rounding}`,
-`zm-plan-index-{int-float,float-eq}`, `zm-plan-range-{int-float,nan,bool}`,
-`zm-findrange-{int-float,nan,bool}`, `zm-find-{nonlive-node,missed-live-node,float-bits}`.
+Deviation signatures that can still occur (model ≠ spec) with the code at cc52572 — all at the
+level of the store API, none reachable from query text:
+`zm-find-float-bits` (index keys are bit patterns: ±0.0, NaN), `zm-find-nonlive-node`,
+`zm-find-missed-live-node` (properties written to ids that are not live nodes),
+`zm-findrange-bool` (`find_nodes_in_range` orders booleans, the filter does not; the planner
+re-filters), `zm-plan-index-missed-live-node` (index path after a write to a not-yet-existing id).
+The `zm-prune-*`, `zm-prune-range-*`, `zm-plan-pruned-*`, `zm-plan-range-*`, other
+`zm-plan-index-*` and `zm-findrange-{int-float,nan}` signatures of the earlier code are ruled out
+by `c10_zone_map_sound_filter`, `c10_zone_map_range_sound`, `c10_planner_paths_agree`; the code
+that computes them is kept so that a regression is named.
 -/
 namespace Grafeo.DriverZm
 open Grafeo.ZoneMap Grafeo.F64 Grafeo.Proto
 
 structure St where
   s : Store := {}
+  /-- keys whose zone map was rebuilt over order-sensitive content: min/max are not compared -/
+  fuzzy : List Nat := []
 
 def hexNat (s : String) : Option Nat :=
   s.toList.foldlM (fun acc c => do pure (acc * 16 + (← hexVal c))) 0
@@ -78,6 +86,10 @@ def showZone : Option ZM → String
   | none => "none"
   | some z => s!"{showOptV z.min},{showOptV z.max},{z.nullCount},{z.rowCount}"
 
+def showZoneFuzzy : Option ZM → String
+  | none => "none"
+  | some z => s!"~,~,{z.nullCount},{z.rowCount}"
+
 /-- `key=id.id.id,key=id.id` -/
 def parseOrds (t : String) : Option (List (Nat × List Nat)) :=
   if t == "-" then some []
@@ -112,14 +124,13 @@ def isBoolV : V → Bool
   | _ => false
 
 /-- the kind of a value `x` that satisfies `x <op> v` for the filter although the zone map said
-"no row can match" -/
+"no row can match" (none of these can occur with the repaired code: `c10_zone_map_sound_filter`) -/
 def pruneKind (op : Op) (x v : V) : String :=
-  if op == .ne && x == .null then "null"         -- `NULL <> v` is true for the filter
-  else if isNaNV x || isNaNV v then "nan"        -- NaN compares as 0: `<=`/`>=` hold
-  else if op == .ne && isInfV x then "inf"       -- inf − inf = NaN: `inf <> inf` holds
-  else if zsat op x v then "rounding"            -- the zone map's own order says it matches:
-                                                 -- i64→f64 rounding made the order non-transitive
-  else if op == .eq then "eps"                   -- |a−b| < ε equality
+  if op == .ne && x == .null then "null"
+  else if isNaNV x || isNaNV v then "nan"
+  else if op == .ne && isInfV x then "inf"
+  else if zsat op x v then "rounding"
+  else if op == .eq then "eps"
   else "other"
 
 def currentVals (s : Store) (key : Nat) : List V :=
@@ -232,22 +243,28 @@ def colSensitive (c : Col) : Bool :=
 def handle (z : St) (args : List String) : Option (St × Proto.Out) :=
   let s := z.s
   match args with
-  | ["node"] => some ({ s := s.createNode }, { model := toString s.next })
+  | ["node"] => some ({ z with s := s.createNode }, { model := toString s.next })
   | ["set", id, k, v] => do
     let id ← id.toNat?; let k ← k.toNat?; let v ← parseV v
-    pure ({ s := s.setProp id k v }, { model := "-" })
+    pure ({ z with s := s.setProp id k v }, { model := "-" })
   | ["remove", id, k] => do
     let id ← id.toNat?; let k ← k.toNat?
     let old := match s.props.get id k with | some v => showV v | none => "none"
-    pure ({ s := s.removeProp id k }, { model := old })
+    pure ({ z with s := s.removeProp id k }, { model := old })
   | ["delnode", id] => do
     let id ← id.toNat?
-    pure ({ s := s.deleteNode id }, { model := boolStr (s.live.contains id) })
+    pure ({ z with s := s.deleteNode id }, { model := boolStr (s.live.contains id) })
   | ["rebuild", ords] => do
-    let ords ← parseOrds ords
-    -- the real iteration order is random: only order-insensitive columns can be compared
-    let sens := ords.isEmpty && s.props.any (fun p => colSensitive p.2)
-    pure ({ s := s.rebuild ords }, { model := if sens then "order-sensitive" else "-" })
+    -- `-`, an explicit order `k=id.id,..` (model only), or `~k.k` = the keys whose rebuilt
+    -- zone map depends on the (random) iteration order: their min/max are not compared until
+    -- the next rebuild. The claim is re-checked here.
+    let (claimed, ords) ← (if ords.startsWith "~" then do
+        let ks ← ((String.ofList (ords.toList.drop 1)).splitOn ".").mapM (fun x => x.toNat?)
+        pure (ks, ([] : List (Nat × List Nat)))
+      else do pure ([], ← parseOrds ords))
+    let sens := if ords.isEmpty then (s.props.filter (fun p => colSensitive p.2)).map (·.1) else []
+    let ok := sens.all claimed.contains
+    pure ({ s := s.rebuild ords, fuzzy := claimed }, { model := if ok then "-" else "order-sensitive" })
   | ["mix", op, q, vals] => do
     let op ← parseOp op; let q ← parseV q
     let vs ← (vals.splitOn ",").mapM parseV
@@ -266,7 +283,7 @@ def handle (z : St) (args : List String) : Option (St × Proto.Out) :=
       pure (z, mk m sp ("zm-prune-" ++ pruneKind op x q))
   | ["zone", k] => do
     let k ← k.toNat?
-    pure (z, { model := showZone (s.props.zone k) })
+    pure (z, { model := if z.fuzzy.contains k then showZoneFuzzy (s.props.zone k) else showZone (s.props.zone k) })
   | ["might", k, op, v] => do
     let k ← k.toNat?; let op ← parseOp op; let v ← parseV v
     let m := s.props.mightMatch k op v
@@ -288,10 +305,10 @@ def handle (z : St) (args : List String) : Option (St × Proto.Out) :=
         pure (z, mk "false" "true" ("zm-prune-range-" ++ kind))
   | ["index", k] => do
     let k ← k.toNat?
-    pure ({ s := s.createIndex k }, { model := "-" })
+    pure ({ z with s := s.createIndex k }, { model := "-" })
   | ["dropindex", k] => do
     let k ← k.toNat?
-    pure ({ s := s.dropIndex k }, { model := boolStr (s.hasIndex k) })
+    pure ({ z with s := s.dropIndex k }, { model := boolStr (s.hasIndex k) })
   | ["find", k, v] => do
     let k ← k.toNat?; let v ← parseV v
     let m := s.find k v
@@ -324,7 +341,13 @@ def handle (z : St) (args : List String) : Option (St × Proto.Out) :=
                sig := if sameSet m sp then "-" else
                  let path := match s.choosePath k op v with
                    | .pruned => "pruned" | .index => "index" | .range => "range" | .generic => "generic"
-                 if path == "pruned" then prunedSig "zm-plan-pruned" s k op v m sp
+                 -- by `c10_planner_paths_agree` only the index path can deviate, and only by
+                 -- missing a live node whose property was written before the node existed
+                 if path == "index" then
+                   (match firstDiff m sp with
+                    | some n => if sp.contains n then "zm-plan-index-missed-live-node" else "zm-plan-index-unexpected"
+                    | none => "-")
+                 else if path == "pruned" then prunedSig "zm-plan-pruned" s k op v m sp
                  else setDiffSig ("zm-plan-" ++ path) s k op v m sp })
   | ["get", id, k] => do
     let id ← id.toNat?; let k ← k.toNat?
